@@ -1,7 +1,176 @@
-(* C03 — Set operations equal mathematical set algebra in both implementations. *)
-From Typ Require Import Sets.AnySet Sets.MapSetProofs.
+(* C03 — Set operations equal mathematical set algebra in both implementations.
+   Statements only; every proof is [exact] of a lemma of Sets/SetsInst.v
+   (which discharges the sync2.Map refinement hypotheses of Sets/*Proofs.v
+   with SyncMap/SeqProofs.v).
 
-Theorem C03_ms_add : forall (s : mapset) v,
-  (ms_Add s v).1 = {[v]} ∪ s ∧ (ms_Add s v).2 = bool_decide (v ∉ s).
-Proof. exact ms_Add_spec. Qed.
-Print Assumptions C03_ms_add.
+   Vocabulary. [anyset] = a sets.Set[int] value: [AM s] a maps.Set (s : gset Z),
+   [AS s] a *sync2.Set (s : the read map / dirty map / entry heap of its
+   sync2.Map). [abs a : gset Z] = the set it stands for. [wf_set a] = the
+   structural invariant of the sync2.Map inside (True for a maps.Set); it holds
+   of every value a history of calls can produce (C03_histories), whatever
+   nil / expunged / promoted entries the history left behind.
+   The methods ([as_Bin], [as_Add], ... of Sets/AnySet.v) dispatch on the
+   dynamic type of the receiver and reach their argument through the
+   interface, so quantifying over a, b : anyset covers the four pairings.
+   They return the new states of receiver and argument next to the result:
+   internal layout (miss counter, promotion) may change, [abs] may not.
+   Visit orders ([oa], [ob], [order]) are the orders in which the Go runtime
+   iterates the underlying maps: arbitrary, except that every key is visited
+   exactly once ([covers]; C03_go_orders_cover shows that the orders Go can
+   produce satisfy it). Quantifiers: all sets, all values, all orders; no bound. *)
+From Typ Require Import Sets.AnySet Sets.MapSetProofs Sets.SyncSetProofs Sets.AnySetProofs Sets.SetsInst SyncMap.SeqProofs.
+From stdpp Require Import gmap list.
+Local Open Scope Z_scope.
+
+(* Union / Intersect / SetDiff / SymDiff ([set_bin]: ∪, ∩, ∖, (X∖Y)∪(Y∖X)) return
+   exactly the set-algebra result as a new well-formed set; both operands keep
+   their membership. All four pairings, every visit order. *)
+Theorem C03_binary_ops : ∀ (o : binop) (a b : anyset) (oa ob : list Z),
+  wf_set a → wf_set b → covers (abs a) oa → covers (abs b) ob →
+  ∃ r a' b', as_Bin o a b oa ob = Ok (r, a', b') ∧
+    wf_set r ∧ abs r = set_bin o (abs a) (abs b) ∧
+    wf_set a' ∧ abs a' = abs a ∧ wf_set b' ∧ abs b' = abs b.
+Proof. exact (as_Bin_spec WF seq_ok_WF). Qed.
+Print Assumptions C03_binary_ops.
+
+(* Add reports true exactly when the value was not a member, and makes it one. *)
+Theorem C03_add : ∀ (a : anyset) (v : Z), wf_set a →
+  ∃ a', as_Add a v = Ok (a', bool_decide (v ∉ abs a)) ∧ wf_set a' ∧ abs a' = {[v]} ∪ abs a.
+Proof. exact (as_Add_spec WF seq_ok_WF). Qed.
+Print Assumptions C03_add.
+
+(* Remove reports true exactly when the value was a member, and removes it. *)
+Theorem C03_remove : ∀ (a : anyset) (v : Z), wf_set a →
+  wf_set (as_Remove a v).1 ∧ abs (as_Remove a v).1 = abs a ∖ {[v]} ∧
+  (as_Remove a v).2 = bool_decide (v ∈ abs a).
+Proof. exact (as_Remove_spec WF seq_ok_WF). Qed.
+Print Assumptions C03_remove.
+
+(* AddSet returns exactly the number of members gained; the argument keeps its membership. *)
+Theorem C03_addset : ∀ (a b : anyset) (ob : list Z), wf_set a → wf_set b → covers (abs b) ob →
+  ∃ a' b', as_AddSet a b ob = Ok (a', b', Z.of_nat (size (abs b ∖ abs a))) ∧
+    wf_set a' ∧ abs a' = abs a ∪ abs b ∧ wf_set b' ∧ abs b' = abs b.
+Proof. exact (as_AddSet_spec WF seq_ok_WF). Qed.
+Print Assumptions C03_addset.
+
+(* RemoveSet returns exactly the number of members lost. *)
+Theorem C03_removeset : ∀ (a b : anyset) (ob : list Z), wf_set a → wf_set b → covers (abs b) ob →
+  ∃ a' b', as_RemoveSet a b ob = (a', b', Z.of_nat (size (abs a ∩ abs b))) ∧
+    wf_set a' ∧ abs a' = abs a ∖ abs b ∧ wf_set b' ∧ abs b' = abs b.
+Proof. exact (as_RemoveSet_spec WF seq_ok_WF). Qed.
+Print Assumptions C03_removeset.
+
+(* Has, Len, Slice, String agree with the membership and do not change it:
+   Slice returns the members in visit order ([visit]), String their text
+   "{v v v}" ([toks_of]). *)
+Theorem C03_observers : ∀ (a : anyset) (order : list Z), wf_set a →
+  (∀ v, wf_set (as_Has a v).1 ∧ abs (as_Has a v).1 = abs a ∧ (as_Has a v).2 = bool_decide (v ∈ abs a)) ∧
+  (covers (abs a) order →
+     wf_set (as_Len a order).1 ∧ abs (as_Len a order).1 = abs a ∧ (as_Len a order).2 = Z.of_nat (size (abs a))) ∧
+  (wf_set (as_Slice a order).1 ∧ abs (as_Slice a order).1 = abs a ∧ (as_Slice a order).2 = visit (abs a) order) ∧
+  (wf_set (as_String a order).1 ∧ abs (as_String a order).1 = abs a ∧ (as_String a order).2 = toks_of (visit (abs a) order)).
+Proof. exact observers_spec. Qed.
+Print Assumptions C03_observers.
+
+(* ... where the members in visit order are every member exactly once. *)
+Theorem C03_enumeration : ∀ (X : gset Z) (order : list Z), covers X order →
+  NoDup (visit X order) ∧ visit X order ≡ₚ elements X ∧ length (visit X order) = size X ∧
+  ∀ v, v ∈ visit X order ↔ v ∈ X.
+Proof. exact visit_enumerates. Qed.
+Print Assumptions C03_enumeration.
+
+(* Range passes the members in visit order to the callback and stops as soon as
+   the callback returns false ([range_cb]); a callback that returns false at
+   its j-th call ([stop_cb j]; j = 0: never) is called exactly min j |s| times,
+   on the first members of the enumeration. *)
+Theorem C03_range : ∀ (a : anyset) (order : list Z), wf_set a →
+  (∀ A (f : A → Z → A * bool) acc,
+     wf_set (as_Range a order f acc).1 ∧ abs (as_Range a order f acc).1 = abs a ∧
+     (as_Range a order f acc).2 = range_cb f acc (visit (abs a) order)) ∧
+  (∀ j, covers (abs a) order →
+     let r := as_Range a order (stop_cb j) (O, []) in
+     r.2.2 = take_stop j (visit (abs a) order) ∧
+     r.2.1 = length r.2.2 ∧
+     r.2.1 = match j with O => size (abs a) | _ => Nat.min j (size (abs a)) end).
+Proof. exact range_spec. Qed.
+Print Assumptions C03_range.
+
+(* Clone: a new well-formed set with the same members. *)
+Theorem C03_clone : ∀ (a : anyset) (order : list Z), wf_set a → covers (abs a) order →
+  ∃ a' c, as_Clone a order = Ok (a', c) ∧ wf_set a' ∧ abs a' = abs a ∧ wf_set c ∧ abs c = abs a.
+Proof. exact (as_Clone_spec WF seq_ok_WF). Qed.
+Print Assumptions C03_clone.
+
+(* The empty sets and NewSetFromSlice / NewSetFromKeys / NewSetFromValues of
+   either package (i : impl) hold exactly the given values. *)
+Theorem C03_constructors : ∀ (i : impl),
+  (wf_set (new_set i) ∧ abs (new_set i) = ∅) ∧
+  (∀ l, ∃ a, new_from i (ms_NewSetFromSlice l) (ss_NewSetFromSlice l) = Ok a ∧ wf_set a ∧ abs a = list_to_set l) ∧
+  (∀ m, ∃ a, new_from i (ms_NewSetFromKeys m) (ss_NewSetFromKeys m) = Ok a ∧ wf_set a ∧ abs a = list_to_set (map fst m)) ∧
+  (∀ m, ∃ a, new_from i (ms_NewSetFromValues m) (ss_NewSetFromValues m) = Ok a ∧ wf_set a ∧ abs a = list_to_set (map snd m)).
+Proof. exact (λ i, conj (new_set_spec i) (constructors_spec i)). Qed.
+Print Assumptions C03_constructors.
+
+(* CartesianProduct yields exactly the |A|*|B| distinct pairs (every inner
+   Range may use its own visit order [ob va]). *)
+Theorem C03_cartesian : ∀ (a b : anyset) (oa : list Z) (ob : Z → list Z),
+  wf_set a → wf_set b → covers (abs a) oa → (∀ va, covers (abs b) (ob va)) →
+  let r := CartesianProduct a b oa ob in
+  wf_set r.1.1 ∧ abs r.1.1 = abs a ∧ wf_set r.1.2 ∧ abs r.1.2 = abs b ∧
+  NoDup r.2 ∧ length r.2 = (size (abs a) * size (abs b))%nat ∧
+  ∀ x y, (x, y) ∈ r.2 ↔ x ∈ abs a ∧ y ∈ abs b.
+Proof. exact cartesian_spec. Qed.
+Print Assumptions C03_cartesian.
+
+(* All construction histories: any sequence of calls of the whole interface on
+   a growing table of handles of both implementations (adds, removes, re-adds,
+   observers and ranges that promote, binary operations in any pairing storing
+   their result in a new handle) runs without panic, returns call by call what
+   the specification [spec_ops] on plain mathematical sets returns, and leaves
+   every handle well-formed and standing for its specification set. Holds from
+   every related pair of tables, in particular from the empty one. Ill-formed
+   histories (unknown handle, receiver = argument) are ill-formed on both sides. *)
+Theorem C03_histories : ∀ (ops : list op) (hs : list anyset) (Xs : list (gset Z)),
+  rel WF hs Xs → all_orders_ok Xs ops →
+  match spec_ops Xs ops with
+  | Some (Xs', vs) => ∃ hs', run_ops hs ops = Some (Ok (hs', vs)) ∧ rel WF hs' Xs'
+  | None => run_ops hs ops = None
+  end.
+Proof. exact histories_spec. Qed.
+Print Assumptions C03_histories.
+
+(* The hypothesis [covers] is what Go guarantees: an iteration of a Go map
+   enumerates its keys once each; inside sync2.Map.Range the map iterated is
+   read.m after the promotion, whose keys include every live key. *)
+Theorem C03_go_orders_cover :
+  (∀ (s : mapset) order, order ≡ₚ elements s → covers (abs (AM s)) order) ∧
+  (∀ (s : syncset) order, WF s → order ≡ₚ (map_to_list (read_m (range_promotion s))).*1 → covers (abs (AS s)) order).
+Proof. exact go_orders_cover. Qed.
+Print Assumptions C03_go_orders_cover.
+
+(* Non-vacuity: a history on a sync2.Set (handle 0) that promotes, removes
+   (nil entries), adds a new key (the nil entries become expunged), re-adds an
+   expunged key (unexpunge), then mixes it with a maps.Set (handle 1) in both
+   pairings. The visit orders satisfy the hypotheses, the specification and the
+   model return the same outputs, and the final state of handle 0 still holds
+   an expunged entry. *)
+Definition C03_example_ops : list op :=
+  [ONew IS; OAdd 0 1; OAdd 0 2; OAdd 0 3; OLen 0 [3;1;2]; ORemove 0 2; ORemove 0 3; OAdd 0 4; OAdd 0 2;
+   OFromSlice IM [2;5;5]; OBin BSymDiff 0 1 [4;3;2;1] [5;2]; OBin BIntersect 1 0 [2;5] [];
+   OSlice 2 [5;4;1;0]; OAddSet 1 0 [2;1;4;3]; OCartesian 3 1 [2] (λ _, [5;4;2;1]); ORange 1 [1;2;4;5] 3; OString 0 [4;2;1]].
+Example C03_example :
+  all_orders_ok [] C03_example_ops ∧
+  option_map snd (spec_ops [] C03_example_ops) =
+    Some [VUnit; VBool true; VBool true; VBool true; VInt 3; VBool true; VBool true; VBool true; VBool true;
+          VUnit; VUnit; VUnit; VList [5;4;1]; VInt 2; VPairs [(2,5);(2,4);(2,2);(2,1)]; VList [1;2;4];
+          VToks [TOpen; TVal 4; TSpace; TVal 2; TSpace; TVal 1; TClose]] ∧
+  match run_ops [] C03_example_ops with
+  | Some (Ok (hs, vs)) =>
+      Some vs = option_map snd (spec_ops [] C03_example_ops) ∧
+      match hs !! O with
+      | Some (AS s) => existsb (λ p, bool_decide (p.2 = PExpunged)) (map_to_list (ents s)) = true
+      | _ => False
+      end
+  | _ => False
+  end.
+Proof. split; [apply bool_decide_unpack; vm_compute; reflexivity|]. vm_compute. repeat split. Qed.
